@@ -77,7 +77,7 @@ def handle (req : Json) : Except String Json := do
         | some rs => regionsDisjoint (sortRegions rs)
         | none => false
       let nomodel := (jBool req "nomodel").toOption.getD false
-      return Json.mkObj [("wf", Json.bool (disjoint && d.escapesOk && d.namesOk)), ("bytes", jHexOf bytes),
+      return Json.mkObj [("wf", Json.bool (disjoint && d.wf elfEnv)), ("bytes", jHexOf bytes),
                          ("expect", resJson id (specObserve d queries)),
                          ("model", if nomodel then Json.null else resJson id (modelObserve bytes queries))]
   | "raw" =>
